@@ -725,7 +725,19 @@ namespace xsimd
     {
         if (std::numeric_limits<T>::is_signed)
         {
-            return sadd(lhs, (T)-rhs);
+            // -rhs overflows for rhs == lowest, so test the bounds on the difference directly
+            if ((rhs > 0) && (lhs < std::numeric_limits<T>::lowest() + rhs))
+            {
+                return std::numeric_limits<T>::lowest();
+            }
+            else if ((rhs < 0) && (lhs > std::numeric_limits<T>::max() + rhs))
+            {
+                return std::numeric_limits<T>::max();
+            }
+            else
+            {
+                return lhs - rhs;
+            }
         }
         else
         {
